@@ -320,7 +320,7 @@ def validate_trace(module, trace_path, name, chunk_events=1500, par=8, timeout=1
             if okrun and not rejs and not stopped:
                 res["accepted_chunks"] += 1
             elif rejs or stopped:
-                for ln, what in rejs[:50]:
+                for ln, what in rejs:
                     ln = int(ln)
                     ev = json.loads(ch[2][ln - 1]) if 1 <= ln <= len(ch[2]) else None
                     res["rejects"].append({"chunk": ch[0], "line": ch[1] + ln, "what": what.strip(), "event": ev})
